@@ -590,6 +590,7 @@ func serialShapes(thorough bool) []bmShape {
 		{"A1 x4 (no run)", P("ak", 4, "akeys", 0, "ac0", 1, "ac1", 1, "ac2", 1, "ac3", 1), 0, 0, 0},
 		{"A1,R1,A1,R1,A1", P("ak", 5, "akeys", 0, "ac0", 1, "ac1", 201, "ac2", 1, "ac3", 201, "ac4", 1), 0, 0, 0},
 		{"B(lo),A1", P("ak", 2, "akeys", 4, "ac0", 100, "ac1", 1), 0, 0, 0},
+		{"A*(4096),A1: the largest array chunk", P("ak", 2, "akeys", 4, "ac0", 14, "ac1", 1), 0, 0, 0},
 		{"Rfull,A1", P("ak", 2, "akeys", 3, "ac0", 220, "ac1", 1), 0, 0, 0},
 		{"R2", P("ak", 1, "akeys", 2, "ac0", 202), 0, 0, 1},
 		{"A3,B(lo),R1", P("ak", 3, "akeys", 4, "ac0", 3, "ac1", 100, "ac2", 201), 0, 0, 1},
@@ -600,8 +601,8 @@ func serialShapes(thorough bool) []bmShape {
 func c05Instances(add func(*Instance), thorough bool) {
 	for _, b := range serialShapes(thorough) {
 		base := with(b.p, "L", 7, "eff", 1, "acow", 0, "tail", 2, "chunk", 3, "xb", 0, "xm", 262143)
-		if b.p["ac0"] == 100 || b.p["ac1"] == 100 {
-			base = with(base, "xb", 4150, "xm", 15) // the follow-up Add goes into a bitmap chunk: windowed argument
+		if b.p["ac0"] == 100 || b.p["ac1"] == 100 || b.p["ac0"] == 14 {
+			base = with(base, "xb", 4150, "xm", 15) // the follow-up Add goes into a bitmap chunk / a 4096-element array: windowed argument
 		}
 		for rd := 0; rd <= 4; rd++ {
 			add(&Instance{Func: "VerifC05RoundTrip", Tier: b.tier, Note: b.name, Params: with(base, "wr", 0, "rd", rd)})
@@ -613,6 +614,14 @@ func c05Instances(add func(*Instance), thorough bool) {
 		}
 		add(&Instance{Func: "VerifC05RoundTrip", Tier: b.tier, Params: with(base, "wr", 0, "rd", 0, "reuse", 1)})
 		add(&Instance{Func: "VerifC05RoundTrip", Tier: b.tier, Params: with(base, "wr", 0, "rd", 2, "reuse", 1, "tail", 0)})
+		// receivers whose parallel slices have unequal capacities (grown by single Adds / cleared), every entry point
+		for rd := 0; rd <= 3; rd++ {
+			add(&Instance{Func: "VerifC05RoundTrip", Tier: b.tier, Params: with(base, "wr", 0, "rd", rd, "reuse", 2+rd%2)})
+		}
+		// the stream is exactly the buffer (no trailing bytes): the last field read ends at the end of the input
+		for rd := 0; rd <= 3; rd++ {
+			add(&Instance{Func: "VerifC05RoundTrip", Tier: b.tier, Params: with(base, "wr", 0, "rd", rd, "tail", 0)})
+		}
 		add(&Instance{Func: "VerifC05WriterFault", Tier: b.tier, Params: base})
 	}
 }
@@ -620,7 +629,7 @@ func c05Instances(add func(*Instance), thorough bool) {
 func c06Instances(add func(*Instance), thorough bool) {
 	for _, b := range serialShapes(thorough) {
 		win := P("xb", 0, "xm", -1)
-		hasB := b.p["ac0"] == 100 || b.p["ac1"] == 100
+		hasB := b.p["ac0"] == 100 || b.p["ac1"] == 100 || b.p["ac0"] == 14
 		if hasB {
 			win = P("xb", 4150, "xm", 15)
 		}
@@ -630,6 +639,10 @@ func c06Instances(add func(*Instance), thorough bool) {
 		}
 		add(&Instance{Func: "VerifC06Write", Tier: b.tier, Note: b.name, Params: base})
 		if b.p["ak"] == 0 {
+			// the 8-byte encoding of the empty set (cookie 12346, count 0): the last field ends at the end of the input
+			for rd := 0; rd <= 2; rd++ {
+				add(&Instance{Func: "VerifC06Read", Params: with(base, "enc", 0, "rd", rd)})
+			}
 			continue
 		}
 		hasRun := false
@@ -673,7 +686,7 @@ func c10Instances(add func(*Instance), thorough bool) {
 	}
 	// 2. proper prefixes of valid streams
 	for _, b := range serialShapes(thorough) {
-		if b.p["ak"] == 0 || b.p["ac0"] == 100 || b.p["ac1"] == 100 {
+		if b.p["ak"] == 0 || b.p["ac0"] == 100 || b.p["ac1"] == 100 || b.p["ac0"] == 14 {
 			continue
 		}
 		for rd := 0; rd <= 3; rd++ {
@@ -889,6 +902,19 @@ func c07MoreInstances(add func(*Instance), thorough bool) {
 				add(&Instance{Func: "VerifC07Op", Params: with(three, "op", op, "mut", mut, "mk", mk, "pre", 0, "xb", 5*65536+56, "xm", 15)})
 			}
 		}
+	}
+	// AddMany as the follow-up mutation of a copy-on-write clone (and of its source)
+	cowClone := with(win, "ak", 2, "akeys", 4, "acow", 1, "ac0", 2, "ac1", 1, "bk", 1, "bkeys", 4, "bcow", 0, "bc0", 1, "xb", 0, "xm", 131071)
+	for _, mut := range []int{0, 1, 3} {
+		add(&Instance{Func: "VerifC07Op", Params: with(cowClone, "op", 0, "mut", mut, "mk", 6, "pre", 1)})
+	}
+	add(&Instance{Func: "VerifC07Op", Params: with(cowClone, "op", 2, "mut", 0, "mk", 6, "pre", 1)})
+	// an empty member in the list of the sequential aggregates (the caller's slice keeps its order)
+	for _, op := range []int{11, 12, 13, 14} {
+		add(&Instance{Func: "VerifC07Op", Params: with(win, "ak", 2, "akeys", 0, "acow", 1, "ac0", 1, "ac1", 1, "bk", 2, "bkeys", 0, "bcow", 1, "bc0", 1, "bc1", 1,
+			"op", op, "mut", 0, "mk", 0, "pre", 0, "emp", 1)})
+		add(&Instance{Func: "VerifC07Op", Params: with(win, "ak", 2, "akeys", 0, "acow", 0, "ac0", 1, "ac1", 1, "bk", 1, "bkeys", 0, "bcow", 0, "bc0", 1,
+			"op", op, "mut", 2, "mk", 0, "pre", 0, "emp", 0)})
 	}
 	// a single member: the result must still be a bitmap of its own
 	one := with(win, "ak", 2, "akeys", 0, "acow", 1, "ac0", 1, "ac1", 1, "bk", 0, "emp", 3)
